@@ -139,6 +139,7 @@ public:
     //
     bool    simplify     ();                        // Removes already satisfied clauses.
     void    declareVarsToTheories();                 // Declare the seen variables to the theories
+    virtual bool isNeededForModelExtension(Var) const { return false; } // Does the value of the variable matter although it occurs in no clause?
     bool    solve        ( const vec< Lit > & assumps );                 // Search for a model that respects a given set of assumptions.
 
     void    toDimacs     (FILE* f, const vec<Lit>& assumps);            // Write CNF to file in DIMACS-format.
